@@ -3,9 +3,10 @@
 HashableObjectWithManifest; the per-class _compute_hash_from_attributes and
 swhid() of the seven identified kinds).
 
-Tie.  Objects of the seven kinds are built with the REAL classes (generators of
-C02/C05/C04/C03 for directories/snapshots/releases/revisions, own generators for
-origins, external ids, raw extrinsic metadata).  The manifest of the attributes
+Tie.  Objects of the seven kinds are built with the REAL classes (own, pure-Python
+spec generators for all seven kinds: prefix-chain names, every presence
+combination, legacy extra headers inside metadata, aliases, non-ASCII URLs,
+contexts, payloads).  The manifest of the attributes
 is taken from the library's own function (git_objects.<kind>_git_object,
 url.encode()), and (kind, attrs manifest, raw manifest, id argument[, change])
 is sent to the extracted generic model, run with the executable SHA-1 of
@@ -41,6 +42,21 @@ One case = one object + one family of scenarios:
           afresh for every call.  The object must be the one built from the
           materialised tuple / dict and satisfy id == compute_hash(), check(),
           swhid()
+  big     the same objects made large (thousands of entries / branches / parents,
+          100 kB - 1 MB messages, metadata, external ids; raw manifests of 4 kB,
+          64 kB, 1 MB +-1): ids, flips, raw manifests, evolve - evaluated by the
+          oracle only (hashlib), the model's executable SHA-1 being too slow
+Across the families (audit round): the three reads compute_hash() / check() /
+swhid() are made in a random order with repetitions (a read must not change the
+object nor depend on earlier reads); the source of an evolve is sometimes read
+first and must be unchanged afterwards; values EQUAL to the current one but of
+another type (True for 1, int / bytes / str subclasses, bytearray) in evolve and
+as "twins" built one after the other with the same explicit id; raw manifests
+given as bytearray / memoryview / bytes subclass; ids given as bytes subclass, as
+40 hex characters; evolve with equal values on a stale-id source, with all fields,
+with several fields, with all fields that do not enter the manifest together
+(incl. a revision's legacy metadata layout, which does), chains of evolves and
+back, sources produced by anonymize(); the class / object_type of swhid()
 """
 import datetime
 import hashlib
@@ -64,11 +80,16 @@ THEOREMS = ["C07_init_id", "C07_construct_id", "C07_explicit_id_kept", "C07_chec
             "C07_init_id_origin", "C07_needed_raw_passes_example", "C07_unneeded_raw_fails_example",
             "C07_satisfiable", "C07_init_id_extid", "C07_init_id_emd"]
 RULE = ("per kind (origin, snapshot, release, revision, directory, raw extrinsic metadata, external id) objects from "
-        "the C02-C05 generators and own generators (non-ASCII URLs, all context combinations, payloads); per object "
-        "three cases: ids (no id, right id, all 160 single-bit flips, truncated, extended, random, zero id), raw "
+        "own pure-Python generators (prefix-chain names, all presence combinations, legacy extra headers, aliases, non-ASCII "
+        "URLs, all context combinations, payloads); reads compute_hash/check/swhid in random order with repetitions; per "
+        "object the families big (oracle only: 100 kB - 1 MB manifests), and: ids (no id, right id, all 160 single-bit flips, truncated, extended, random, zero id), raw "
         "(needed / empty / unneeded raw manifests x no id, right id, attributes' id, random id, flips), evolve (every "
         "attrs field with a changed value and None where optional, no-argument evolve on a wrong id, evolve under a raw "
-        "manifest, evolve(id=)), shapes (every tuple- or mapping-valued argument given as tuple / list / generator / iter / "
+        "manifest, evolve(id=), equal-valued values of another type (True for 1, subclasses) in evolve and as twins with the "
+        "same explicit id, equal values on a stale id, all fields, several fields, all unhashed fields together incl. legacy "
+        "revision metadata, chains of evolves and back, anonymize()-produced sources, source unchanged by evolve; raw also "
+        "as bytearray / memoryview / bytes subclass, lengths around the SHA-1 block boundaries, 4 kB / 64 kB / 1 MB +-1; ids "
+        "also as bytes subclass and as 40 hex characters), shapes (every tuple- or mapping-valued argument given as tuple / list / generator / iter / "
         "filter / map / zip / chain / islice / reversed / deque / subclasses / own one-shot and re-iterable classes / dict / "
         "OrderedDict / defaultdict / MappingProxyType / ImmutableDict / items view / pairs - only the shapes the constructor "
         "resp. from_dict accept today, observed at run time - through the constructor, from_dict and evolve (alone, with "
@@ -80,7 +101,13 @@ TRUSTED = ["the manifest of the attributes is obtained from the library's own gi
            "(their content is the subject of C02-C05, C15); hashlib.sha1 as reference for the oracle",
            "lib/Sha1.v is only the executable instance of the hash variable (validated against hashlib on every case)",
            "attrs: attr.evolve / generated __init__ call the constructor with every field (modelled by attr_evolve / construct)"]
-ASSUMPTIONS = ["objects pass their attrs validators (check() first runs attr.validate; objects that cannot be "
+ASSUMPTIONS = ["anonymize() keeps the original id by design (it is not a route the property speaks about): its results are "
+               "only used as stale-id SOURCES of evolve(); unique_key() is not in the property",
+               "values equal but of another type: only those the validators accept today (observed per field at run time: "
+               "bool / int subclass for ExtID.extid_version, bytes and str subclasses; bytearray only for the unvalidated "
+               "raw_manifest)",
+               "manifests larger than a few kB are checked by the hashlib oracle only (steps marked nomodel)",
+               "objects pass their attrs validators (check() first runs attr.validate; objects that cannot be "
                "constructed are outside the property)",
                "ExtID has no swhid() in the code and no SWHID type exists for it: the SWHID clause is stated for the six "
                "kinds that have one (C07_swhid_extid_none records the absence)",
@@ -177,33 +204,102 @@ def gen_rem(rng):
     return spec
 
 
-def _valid_rev(c):
-    return not (c["author"] is None and c["date"] is not None) and not (c["committer"] is None and c["committer_date"] is not None)
+_NAME_ALPHA = [b"a", b"b", b".", b"-", b"0", b" ", b"\n", b"\x80", b"\xff", b"A", b"~", b"_", b":"]
+_PERMS = [0o100644, 0o100755, 0o120000, 0o040000, 0o160000, 0, 7, 0o177777]
+
+
+def _names(rng, n, extra=()):
+    """n distinct byte strings: prefix chains over an adversarial alphabet (no NUL; `extra` adds bytes to the alphabet)"""
+    alpha = _NAME_ALPHA + list(extra)
+    names = set()
+    base = [b"a", b"ab", b"a.b", b"a-", b"a0", b"a b", b"A", b"", b"\xff", b"HEAD", b"refs"]
+    while len(names) < n:
+        r = rng.random()
+        if r < 0.35 and names:
+            names.add(rng.choice(sorted(names)) + rng.choice(alpha))
+        elif r < 0.6:
+            names.add(rng.choice(base))
+        else:
+            names.add(b"".join(rng.choice(alpha) for _ in range(rng.randrange(1, 6))))
+    return sorted(names)
+
+
+def gen_directory(rng):
+    """entries [name hex, type, target hex, perms]: distinct names without '/'"""
+    es = [[nm.hex(), rng.choice(["file", "dir", "rev"]), _sha(rng).hex(), rng.choice(_PERMS + [rng.randrange(65536)])]
+          for nm in _names(rng, rng.choice([0, 1, 2, 3, 3, 5, 8]))]
+    rng.shuffle(es)
+    return {"entries": es}
+
+
+def gen_snapshot(rng):
+    """branches [name hex, target type | None (dangling), target hex]: aliases to existing / missing / own names"""
+    names = _names(rng, rng.choice([0, 1, 2, 3, 3, 5]), extra=[b"/"])
+    br = []
+    for nm in names:
+        r = rng.random()
+        if r < 0.15:
+            br.append([nm.hex(), None, None])
+        elif r < 0.45:
+            tg = rng.choice([rng.choice(names), nm, rng.choice(names) + b"x",
+                             bytes(rng.choice([0, 58, 48, 10, 32, rng.randrange(256)]) for _ in range(rng.choice([0, 1, 9, 10, 11, 100])))])
+            br.append([nm.hex(), "alias", tg.hex()])
+        else:
+            br.append([nm.hex(), rng.choice(["content", "directory", "revision", "release", "snapshot"]), _sha(rng).hex()])
+    rng.shuffle(br)
+    return {"branches": br}
+
+
+_FULLNAMES = [b"A U Thor <a@b.c>", b"", b"x", b"Name\nwith newline <e>", b" lead", b"\xff\xfe", b"no email", b"a <b> c <d>"]
+_OFFSETS = [b"+0000", b"-0000", b"+0100", b"-1230", b"+1", b"junk", b"\xff\xfe", b"", b" +0200"]
+_VALUES = [b"", b"v1.0", b"hello world", b"a\nb", b" leading", b"-----BEGIN PGP-----\n\nabc\n def\n-----END-----", b"line\n",
+           b"\n \n\n  x", b"\xc3\xa9t\xc3\xa9"]
+TS_MIN, TS_MAX = -62135510961, 253402297199
+
+
+def _gen_date(rng):
+    return [rng.choice([0, -1, 1, TS_MIN, TS_MAX, 1234567890, rng.randrange(TS_MIN, TS_MAX)]),
+            rng.choice([0, 0, 1, 100000, 999999, rng.randrange(10 ** 6)]), rng.choice(_OFFSETS).hex()]
+
+
+def gen_revision(rng):
+    """every accepted presence combination of author / date / committer / committer_date; extra headers given as the
+    attribute or the legacy way inside metadata"""
+    a, cm = rng.random() < 0.75, rng.random() < 0.75
+    parents = [_sha(rng).hex() for _ in range(rng.choice([0, 1, 1, 2, 3]))]
+    if parents and rng.random() < 0.1:
+        parents[0] = ""
+    keys = [b"gpgsig", b"mergetag", b"encoding", b"x-custom", b"HG:extra", b"a", b"\xff"]
+    msg = rng.choice([None, b"", rng.choice(_VALUES), b"subject\n\nbody\n"])
+    return {"message": None if msg is None else msg.hex(),
+            "author": rng.choice(_FULLNAMES).hex() if a else None, "date": _gen_date(rng) if a and rng.random() < 0.8 else None,
+            "committer": rng.choice(_FULLNAMES).hex() if cm else None,
+            "committer_date": _gen_date(rng) if cm and rng.random() < 0.8 else None,
+            "directory": _sha(rng).hex(), "parents": parents,
+            "extra": [[rng.choice(keys).hex(), rng.choice(_VALUES).hex()] for _ in range(rng.choice([0, 0, 1, 2, 4]))],
+            "legacy": rng.random() < 0.3, "synthetic": rng.random() < 0.5,
+            "rtype": rng.choice(["git", "tar", "dsc", "svn", "hg", "cvs", "bzr"])}
+
+
+def gen_release(rng, no_target=False):
+    a = rng.random() < 0.7
+    msg = rng.choice([None, b"", rng.choice(_VALUES)])
+    return {"name": rng.choice(_VALUES).hex(), "message": None if msg is None else msg.hex(),
+            "target": None if no_target else _sha(rng).hex(),
+            "ttype": rng.choice(["content", "directory", "revision", "release", "snapshot"]),
+            "author": rng.choice(_FULLNAMES).hex() if a else None,
+            "date": _gen_date(rng) if a and rng.random() < 0.7 else None,
+            "synthetic": rng.random() < 0.5}
 
 
 def gen_specs(rng, kind, n):
-    from . import c02, c03, c04, c05
-    if kind == "directory":
-        return [{"entries": c02.gen_entries(rng, rng.choice([0, 1, 2, 3, 3, 5, 8]), "ok")} for _ in range(n)]
-    if kind == "snapshot":
-        out = []
-        while len(out) < n:
-            b = c05.gen_map(rng, rng.choice([0, 1, 2, 3, 3, 5]), "ok")
-            if sum(len(t or "") for _, _, t in b) <= 600:         # keep the executable SHA-1 cheap
-                out.append({"branches": b})
-        return out
-    if kind in ("release", "revision"):
-        sub = random.Random(rng.getrandbits(64))
-        pool = (c04 if kind == "release" else c03).gen(sub, "quick")
-        if kind == "release":
-            pool = [c for c in pool if not (c["author"] is None and c["date"] is not None)]
-            # make sure some releases without target (no manifest) are present
-            notarget = [c for c in pool if c["target"] is None][: max(2, n // 12)]
-            pool = notarget + [c for c in pool if c["target"] is not None]
-        else:
-            pool = [c for c in pool if _valid_rev(c)]
-        return pool[:n] if n <= len(pool) else [pool[i % len(pool)] for i in range(n)]
-    g = {"origin": gen_origin, "extid": gen_extid, "raw_extrinsic_metadata": gen_rem}[kind]
+    """pure Python: no library call, no dependency on the other properties' harnesses"""
+    if kind == "release":
+        # some releases without target (no manifest)
+        k = max(2, n // 12)
+        return [gen_release(rng, no_target=(i < k)) for i in range(n)]
+    g = {"origin": gen_origin, "extid": gen_extid, "raw_extrinsic_metadata": gen_rem, "directory": gen_directory,
+         "snapshot": gen_snapshot, "revision": gen_revision}[kind]
     return [g(rng) for _ in range(n)]
 
 
@@ -217,16 +313,19 @@ def gen(rng, tier):
         for kind in KINDS:
             for what in ("evolve", "raw", "shapes", "ids"):
                 case = {"kind": kind, "spec": specs[kind][i], "what": what, "seed": rng.getrandbits(32)}
-                if what == "shapes" and tier != "quick":
-                    case["full"] = True          # every accepted shape in every context
+                if what in ("shapes", "raw", "evolve") and tier != "quick":
+                    case["full"] = True          # every accepted shape in every context / every large size
                 cases.append(case)
+            if i < (1 if tier == "quick" else 6):
+                cases.append({"kind": kind, "spec": specs[kind][i], "what": "big", "big": [1500, 700, 3000, 1100, 5000, 2049][i],
+                              "seed": rng.getrandbits(32)})
     # the evidence samples are taken from the head of the stream: keep them small
     head = [c for c in cases[:4 * len(KINDS)] if c["what"] in ("evolve", "raw")][:6]
     return head + [c for c in cases if not any(c is h for h in head)]
 
 
 def nontrivial(c):
-    return c.get("what") in ("ids", "raw", "evolve", "shapes")
+    return c.get("what") in ("ids", "raw", "evolve", "shapes", "big")
 
 
 def classify(c):
@@ -241,19 +340,28 @@ def classify(c):
 
 
 # ------------------------------------------------------------------ building the real objects
+def _person(fullname_hex):
+    from swh.model.model import Person
+    return None if fullname_hex is None else Person(fullname=bytes.fromhex(fullname_hex), name=None, email=None)
+
+
+def _tstz(date):
+    from swh.model.model import Timestamp, TimestampWithTimezone
+    if date is None:
+        return None
+    return TimestampWithTimezone(timestamp=Timestamp(seconds=date[0], microseconds=date[1]), offset_bytes=bytes.fromhex(date[2]))
+
+
 def base_kwargs(kind, spec):
-    """constructor keyword arguments (without id / raw_manifest)"""
-    import attr
+    """constructor keyword arguments (without id / raw_manifest), exactly as a caller would give them"""
     from swh.model import model as M
     from swh.model.swhids import CoreSWHID, ExtendedSWHID
-    from . import c02, c03, c05
-    from .gitobj_common import mk_person, mk_tstz
     if kind == "release":
         c = spec
         return dict(name=bytes.fromhex(c["name"]), message=None if c["message"] is None else bytes.fromhex(c["message"]),
                     target=None if c["target"] is None else bytes.fromhex(c["target"]),
                     target_type=M.ReleaseTargetType(c["ttype"]), synthetic=c["synthetic"],
-                    author=mk_person(c["author"]), date=mk_tstz(c["date"]), metadata=None)
+                    author=_person(c["author"]), date=_tstz(c["date"]), metadata=None)
     if kind == "origin":
         return {"url": spec["url"]}
     if kind == "extid":
@@ -274,13 +382,56 @@ def base_kwargs(kind, spec):
             kw[k] = None if s[k] is None else CoreSWHID.from_string(s[k])
         return kw
     if kind == "revision":
-        # the caller's own keyword arguments (legacy revisions carry their extra headers inside metadata: the id
-        # is computed BEFORE __attrs_post_init__ moves them to the attribute)
-        kw = c03._kwargs(spec)
-        kw.pop("id", None)
-        return kw
-    o = {"directory": lambda: c02._build(spec["entries"]), "snapshot": lambda: c05._build(spec["branches"])}[kind]()
-    return {a.name: getattr(o, a.name) for a in attr.fields(type(o)) if a.name not in ("id", "raw_manifest")}
+        # legacy revisions carry their extra headers inside metadata, the attribute left empty: the id is computed
+        # BEFORE __attrs_post_init__ moves them to the attribute
+        c = spec
+        extra = tuple((bytes.fromhex(k), bytes.fromhex(v)) for k, v in c["extra"])
+        legacy = bool(c.get("legacy") and extra)
+        return dict(message=None if c["message"] is None else bytes.fromhex(c["message"]),
+                    author=_person(c["author"]), committer=_person(c["committer"]),
+                    date=_tstz(c["date"]), committer_date=_tstz(c["committer_date"]),
+                    type=M.RevisionType(c.get("rtype", "git")), directory=bytes.fromhex(c["directory"]),
+                    synthetic=c["synthetic"], metadata={"extra_headers": [[k, v] for k, v in extra]} if legacy else None,
+                    parents=tuple(bytes.fromhex(p) for p in c["parents"]), extra_headers=() if legacy else extra)
+    if kind == "directory":
+        return {"entries": tuple(M.DirectoryEntry(name=bytes.fromhex(n), type=t, target=bytes.fromhex(tg), perms=p)
+                                 for n, t, tg, p in spec["entries"])}
+    if kind == "snapshot":
+        return {"branches": {bytes.fromhex(n): (None if k is None else
+                                                M.SnapshotBranch(target=bytes.fromhex(t), target_type=M.SnapshotTargetType(k)))
+                             for n, k, t in spec["branches"]}}
+    raise KeyError(kind)
+
+
+def _inflate(kind, kw, n):
+    """the same object made LARGE (n items / about 64*n bytes): manifests of 100 kB - 1 MB"""
+    from swh.model import model as M
+    kw = dict(kw)
+    sha = lambda i: hashlib.sha1(b"%d" % i).digest()
+    if kind == "directory":
+        kw["entries"] = tuple(kw["entries"]) + tuple(
+            M.DirectoryEntry(name=b"\xfe%06d" % i, type=("file", "dir", "rev")[i % 3], target=sha(i), perms=(0o100644, 0o40000, 0o160000)[i % 3])
+            for i in range(n))
+    elif kind == "snapshot":
+        d = dict(kw["branches"].items())
+        for i in range(n):
+            d[b"\xfe/%06d" % i] = None if i % 7 == 0 else M.SnapshotBranch(target=sha(i), target_type=M.SnapshotTargetType.REVISION)
+        kw["branches"] = d
+    elif kind == "revision":
+        kw["parents"] = tuple(kw["parents"]) + tuple(sha(i) for i in range(n))
+        kw["message"] = (kw["message"] or b"") + b"line of the message\n" * (2 * n)
+    elif kind == "release":
+        kw["message"] = (kw["message"] or b"") + b"line of the message\n" * (3 * n)
+        if kw.get("target") is None:
+            kw["target"] = sha(0)
+    elif kind == "raw_extrinsic_metadata":
+        kw["metadata"] = kw["metadata"] + b"0123456789abcdef" * (4 * n)
+    elif kind == "extid":
+        kw["extid"] = kw["extid"] + b"0123456789abcdef" * (4 * n)
+    elif kind == "origin":
+        u = kw["url"]
+        kw["url"] = u + "é" * max(0, (2047 - len(u.encode())) // 2)      # the longest URL the validator accepts
+    return kw
 
 
 def attrs_manifest(kind, obj):
@@ -291,22 +442,81 @@ def attrs_manifest(kind, obj):
         return None
 
 
-def observe(x):
+def _read(x, what):
+    try:
+        if what == "ch":
+            return x.compute_hash().hex()
+        if what == "check":
+            x.check()
+            return "ok"
+        sw = x.swhid()
+        return str(sw), "%s:%s" % (type(sw).__name__, getattr(getattr(sw, "object_type", None), "name", "?"))
+    except Exception as e:
+        return "!" + exc_class(e)
+
+
+def observe(x, rng=None):
+    """id, compute_hash(), check(), swhid().  With rng: the three reads are made in a random order and one or two of them
+    are repeated afterwards - a read must neither change the object nor depend on what was read before; `unstable`
+    lists the reads whose repetition answered differently, `id_changed` is set when the id attribute is different after
+    the reads"""
     o = {"id": x.id.hex()}
-    try:
-        o["ch"] = x.compute_hash().hex()
-    except Exception as e:
-        o["ch"] = "!" + exc_class(e)
-    try:
-        x.check()
-        o["check"] = "ok"
-    except Exception as e:
-        o["check"] = "!" + exc_class(e)
-    try:
-        o["swhid"] = str(x.swhid())
-    except Exception as e:
-        o["swhid"] = "!" + exc_class(e)
+    order = ["ch", "check", "swhid"]
+    if rng is not None:
+        rng.shuffle(order)
+        order += rng.sample(order, rng.choice([1, 1, 2]))
+    unstable = []
+    for w in order:
+        r = _read(x, w)
+        cls_ = None
+        if isinstance(r, tuple):
+            r, cls_ = r
+        if w in o:
+            if o[w] != r:
+                unstable.append(w)
+            continue
+        o[w] = r
+        if cls_ is not None:
+            o["swhid_cls"] = cls_
+    if unstable:
+        o["unstable"] = unstable
+    if x.id.hex() != o["id"]:
+        o["id_changed"] = x.id.hex()
     return o
+
+
+class _BytesSub(bytes):
+    pass
+
+
+class _StrSub(str):
+    pass
+
+
+class _IntSub(int):
+    pass
+
+
+def eq_alt_values(cur):
+    """values EQUAL (==) to cur but of another type - True for 1, an int / bytes / str subclass, ...; the validators
+    decide which are accepted (observed at run time); equal values may still print differently in a manifest"""
+    out = []
+    if isinstance(cur, bool):
+        out += [int(cur), _IntSub(int(cur))]
+    elif isinstance(cur, int):
+        if cur in (0, 1):
+            out.append(bool(cur))
+        out.append(_IntSub(cur))
+    elif isinstance(cur, bytes):
+        out += [_BytesSub(cur), bytearray(cur)]
+    elif isinstance(cur, str):
+        out.append(_StrSub(cur))
+    return out
+
+
+SWHID_CLS = {"origin": "ExtendedSWHID:ORIGIN", "snapshot": "CoreSWHID:SNAPSHOT", "release": "CoreSWHID:RELEASE",
+             "revision": "CoreSWHID:REVISION", "directory": "CoreSWHID:DIRECTORY",
+             "raw_extrinsic_metadata": "ExtendedSWHID:RAW_EXTRINSIC_METADATA"}     # the classes' documented return types
 
 
 def _flip(b, k):
@@ -471,6 +681,8 @@ def alt_values(kind, name, cur, a, rng):
                                                offset_bytes=b"+0100"))
         elif "ImmutableDict" in t or "Dict" in t:
             out.append({"k": "v"})
+            if kind == "revision" and name == "metadata":
+                out.append({"extra_headers": [[b"x-legacy", b"1\n2"], [b"x-legacy", b""]]})       # the legacy layout
         elif "bytes" in t:
             out.append(b"new\nvalue" if name not in ("target", "payload") else _sha(rng))
         elif "str" in t:
@@ -531,6 +743,8 @@ def alt_values(kind, name, cur, a, rng):
             d2 = dict(d)
             d2["new-key"] = "v"
             out.append(d2)
+            if kind == "revision" and name == "metadata":
+                out.append(dict(d, extra_headers=[[b"x-legacy", b"1\n2"], [b"x-legacy", b""]]))   # the legacy layout
     else:
         out.append(cur)
     if cur is not None and (str(a.type).startswith("typing.Optional") or a.default is None):
@@ -548,6 +762,8 @@ def impl(c):
     try:
         cls = _cls(kind)
         kw = base_kwargs(kind, c["spec"])
+        if c.get("big"):
+            kw = _inflate(kind, kw, int(c["big"]))
         probe = cls(**kw, id=b"\x01" * 20)          # explicit id: nothing is hashed
     except Exception as e:
         return {"error": "cannot build: " + exc_class(e)}
@@ -556,15 +772,34 @@ def impl(c):
     steps = []
     res = {"attrs": None if am is None else am.hex(), "has_raw": has_raw, "steps": steps}
 
-    def build_step(label, raw, idv, builder=None, ref_fields=None):
+    def build_step(label, raw, idv, builder=None, ref_fields=None, kw_over=None, nomodel=False, given_id=None):
         """builder: another construction route (shaped keyword arguments, from_dict); the object must then equal the
-        probe on ref_fields"""
+        probe on ref_fields.  kw_over: some constructor arguments replaced (the attributes' manifest is then taken from
+        the library for THAT object).  nomodel: too large for the executable SHA-1 of the model: oracle only.
+        given_id: the id argument as actually passed (a bytes subclass ...), equal to idv"""
         if only and label not in only:
             return
         st = {"label": label, "rawarg": _enc_rawarg(raw), "id": idv.hex()}
+        if nomodel:
+            st["nomodel"] = True
+        kws = kw
+        if kw_over is not None:
+            kws = dict(kw, **kw_over)
+            try:
+                m2 = attrs_manifest(kind, cls(**kws, id=b"\x01" * 20))
+            except Exception as e:
+                st["skip"] = "value refused by the validators: " + exc_class(e)
+                steps.append(st)
+                return
+            st["attrs"] = None if m2 is None else m2.hex()
         try:
-            x = _construct(cls, kw, raw, idv) if builder is None else builder()
-            st["obs"] = observe(x)
+            if builder is not None:
+                x = builder()
+            elif given_id is not None:
+                x = cls(**kws, id=given_id) if raw is _ABSENT else cls(**kws, id=given_id, raw_manifest=raw)
+            else:
+                x = _construct(cls, kws, raw, idv)
+            st["obs"] = observe(x, random.Random("%d:%s" % (c["seed"], label)))
             if ref_fields is not None:
                 st["obs"]["differs"] = _differs(x, probe, ref_fields)
         except Exception as e:
@@ -573,18 +808,37 @@ def impl(c):
 
     junk = b"junk " + bytes(rng.randrange(256) for _ in range(rng.randrange(0, 20)))
 
-    def evolve_step(label, base_raw, base_id, kwargs):
+    fnames = [a.name for a in attr.fields(cls)]
+
+    def evolve_step(label, base_raw, base_id, kwargs, base_obj=None, nomodel=False):
         """kwargs values may be _Shaped: the call receives a FRESH value of that shape, the reference object (and the
-        manifest sent to the model) is built from the materialised tuple / dict"""
+        manifest sent to the model) is built from the materialised tuple / dict.  base_obj: an object obtained otherwise
+        (a previous evolve, anonymize()) is the source: its manifest, raw manifest and id are read from it.
+        Returns the evolved object (None when there is none)."""
         if only and label not in only and label.split("=")[0] not in only:
-            return
-        st = {"label": label, "rawarg": _enc_rawarg(base_raw), "id": base_id.hex()}
-        try:
-            base = _construct(cls, kw, base_raw, base_id)
-        except Exception as e:
-            st["skip"] = "base cannot be built: " + exc_class(e)
-            steps.append(st)
-            return
+            return None
+        if base_obj is not None:
+            base = base_obj
+            base_raw = getattr(base, "raw_manifest", None) if has_raw else _ABSENT
+            base_id = base.id
+            st = {"label": label, "rawarg": _enc_rawarg(base_raw), "id": base_id.hex()}
+            try:
+                bm = attrs_manifest(kind, base)
+            except Exception as e:
+                st["skip"] = "manifest function raises " + exc_class(e)
+                steps.append(st)
+                return None
+            st["attrs"] = None if bm is None else bm.hex()
+        else:
+            st = {"label": label, "rawarg": _enc_rawarg(base_raw), "id": base_id.hex()}
+            try:
+                base = _construct(cls, kw, base_raw, base_id)
+            except Exception as e:
+                st["skip"] = "base cannot be built: " + exc_class(e)
+                steps.append(st)
+                return None
+        if nomodel:
+            st["nomodel"] = True
         ch = {"attrs": "=", "raw": "=", "id": "="}
         plain = {k: _mat(v) for k, v in kwargs.items() if k not in ("id", "raw_manifest")}
         if "raw_manifest" in kwargs:
@@ -599,7 +853,7 @@ def impl(c):
             except Exception as e:
                 st["skip"] = "new value refused by the validators: " + exc_class(e)
                 steps.append(st)
-                return
+                return None
             try:
                 m2 = _manifest_fn(kind)(ref)
                 ch["attrs"] = hx(m2)
@@ -608,15 +862,29 @@ def impl(c):
             except Exception as e:
                 st["skip"] = "manifest function raises " + exc_class(e)
                 steps.append(st)
-                return
+                return None
         st["change"] = ch
+        orng = random.Random("%d:%s" % (c["seed"], label))       # per step: `only` must not shift the other steps' draws
+        if orng.random() < 0.5:
+            # the source is read before it is evolved (a read must not influence what evolve returns)
+            for w in orng.sample(["ch", "check", "swhid"], 2):
+                _read(base, w)
+        before = [getattr(base, n, None) for n in fnames]
+        out = None
         try:
-            res = base.evolve(**{k: _fresh(v) for k, v in kwargs.items()})
-            st["obs"] = observe(res)
-            st["obs"]["differs"] = _differs(res, ref, plain)
+            out = base.evolve(**{k: _fresh(v) for k, v in kwargs.items()})
+            st["obs"] = observe(out, orng)
+            st["obs"]["differs"] = _differs(out, ref, plain)
         except Exception as e:
             st["error"] = exc_class(e)
+        try:
+            changed = [n for n, b in zip(fnames, before) if getattr(base, n, None) != b]
+        except Exception:
+            changed = ["?"]
+        if changed:
+            st.setdefault("obs", {})["source_changed"] = changed
         steps.append(st)
+        return out
 
     right = None if am is None else hashlib.sha1(am).digest()
     if what == "ids":
@@ -632,6 +900,14 @@ def impl(c):
         build_step("random", raw, _sha(rng))
         build_step("zero", raw, bytes(20))
         build_step("random40", raw, _sha(rng) + _sha(rng))
+        if right is not None:
+            # the right id in another encoding / another type
+            build_step("hex-ascii", raw, right.hex().encode())
+            build_step("hex-ascii-upper", raw, right.hex().upper().encode())
+            build_step("right-bytes-subclass", raw, right, given_id=_BytesSub(right))
+            k = rng.randrange(160)
+            build_step("flip-bytes-subclass", raw, _flip(right, k), given_id=_BytesSub(_flip(right, k)))
+        build_step("noid-bytes-subclass", raw, b"", given_id=_BytesSub(b""))
     elif what == "raw":
         if not has_raw:
             build_step("raw-none-on-class-without-field", None, b"")
@@ -659,6 +935,22 @@ def impl(c):
                 build_step("raw-same-randomid", am, _sha(rng))
                 build_step("raw-same-flip", am, _flip(right, rng.randrange(160)))
             build_step("raw-None-noid", None, b"")
+            # buffer-like raw manifests (the field has no validator): same bytes, same id
+            for nm, mk in (("bytearray", bytearray), ("memoryview", memoryview), ("bytes-subclass", _BytesSub)):
+                rid = hashlib.sha1(junk).digest()
+                build_step("raw-as-%s-noid" % nm, mk(junk), b"")
+                build_step("raw-as-%s-flip" % nm, mk(junk), _flip(rid, rng.randrange(160)))
+            build_step("raw-as-empty-bytearray-noid", bytearray(), b"")
+            # lengths around the SHA-1 block / padding boundaries (model), and large ones (oracle only)
+            for n in ((55, 56, 63, 64, 65, 119, 120) if c.get("full") else rng.sample((55, 56, 63, 64, 65, 119, 120), 3)):
+                build_step("raw-len-%d-noid" % n, bytes(rng.randrange(256) for _ in range(n)), b"")
+            sizes = [4095, 4096, 4097, 65535, 65536, 65537] + ([(1 << 20) + 1] if c.get("full") else [])
+            for n in rng.sample(sizes, 2) if not c.get("full") else sizes:
+                big = bytes(rng.randrange(256) for _ in range(64)) * (n // 64 + 1)
+                big = big[:n - 1] + bytes([rng.randrange(256)])
+                build_step("raw-len-%d-noid" % n, big, b"", nomodel=True)
+                build_step("raw-len-%d-rightid" % n, big, hashlib.sha1(big).digest(), nomodel=True)
+                build_step("raw-len-%d-prefix-id" % n, big, hashlib.sha1(big[:n - 1]).digest(), nomodel=True)
     elif what == "evolve":
         base_raw = _ABSENT
         if am is None and has_raw:
@@ -697,6 +989,99 @@ def impl(c):
             if am is not None:
                 evolve_step("under-unneeded-raw:%s" % f0, am, b"", {f0: v0})
             evolve_step("attr-and-raw:%s" % f0, base_raw, b"", {f0: v0, "raw_manifest": junk})
+        evolve_step("field:id=None", base_raw, b"", {"id": None})
+        fdict = attr.fields_dict(cls)
+        alts = {n: alt_values(kind, n, getattr(probe, n), fdict[n], rng) for n in names}
+        cur_of = {n: kw.get(n, getattr(probe, n)) for n in names}
+        # --- values equal (==) to the current ones but of another type (True for 1, subclasses): a manifest may print them
+        # differently, so "nothing changed" cannot be decided with ==; also: twins built one after the other with the SAME
+        # explicit id (an answer remembered for the first must not be served for the second)
+        eq_fields = []
+        for n in names:
+            acc = []
+            for v in eq_alt_values(getattr(probe, n)):
+                try:
+                    cls(**dict(kw, **{n: v}), id=b"\x01" * 20)
+                    acc.append(v)
+                except Exception:
+                    pass
+            if acc:
+                eq_fields.append((n, acc))
+        res["eqtype_fields"] = [n for n, _ in eq_fields]
+        if not c.get("full") and len(eq_fields) > 3:
+            eq_fields = rng.sample(eq_fields, 3)
+        for n, acc in eq_fields:
+            for j, v in enumerate(acc if c.get("full") else acc[:1] if type(acc[0]) is bool else [rng.choice(acc)]):
+                tn = type(v).__name__
+                evolve_step("field:%s=eqtype-%s" % (n, tn), base_raw, b"", {n: v})
+                if right is not None:
+                    if c.get("full"):
+                        evolve_step("field:%s=eqtype-%s-on-explicit-right-id" % (n, tn), base_raw, right, {n: v})
+                        build_step("twin:%s=eqtype-%s:B-noid" % (n, tn), _ABSENT, b"", kw_over={n: v})
+                    build_step("twin:%s=eqtype-%s:A" % (n, tn), _ABSENT, right)
+                    build_step("twin:%s=eqtype-%s:B" % (n, tn), _ABSENT, right, kw_over={n: v})
+        # --- equal values on a source whose id is stale: the id must be recomputed all the same
+        for n in rng.sample(names, min(2 if c.get("full") else 1, len(names))):
+            evolve_step("wrong-id-same:%s" % n, base_raw, wrong, {n: cur_of[n]})
+        evolve_step("all-fields-same-on-wrong-id", base_raw, wrong, dict(cur_of))
+        evolve_step("all-fields-same", base_raw, b"", dict(cur_of))
+        # --- several fields at once; the fields that do not enter the manifest, all together, with each of their values
+        #     (a revision's legacy metadata layout DOES enter it through __attrs_post_init__)
+        for k in range(2 if c.get("full") else 1):
+            fs = rng.sample(names, min(len(names), rng.choice([2, 3])))
+            evolve_step("multi%d:%s" % (k, "+".join(fs)), base_raw, rng.choice([b"", wrong]),
+                        {n: alts[n][rng.randrange(len(alts[n]))] for n in fs})
+        unhashed = []
+        for n in names:
+            try:
+                if am is not None and _manifest_fn(kind)(attr.evolve(probe, **{n: alts[n][0]})) == am:
+                    unhashed.append(n)
+            except Exception:
+                pass
+        if unhashed:
+            for k in range(max(len(alts[n]) for n in unhashed)):
+                evolve_step("unhashed-together:%d" % k, base_raw, b"", {n: alts[n][k % len(alts[n])] for n in unhashed})
+                if c.get("full") or k == rng.randrange(3):
+                    evolve_step("unhashed-together-on-wrong-id:%d" % k, base_raw, wrong,
+                                {n: alts[n][k % len(alts[n])] for n in unhashed})
+        # --- chains: evolve the result of an evolve, and back to the original content
+        f1 = names[rng.randrange(len(names))]
+        e1 = evolve_step("chain:1:%s" % f0, base_raw, b"", {f0: v0})
+        if e1 is not None:
+            e2 = evolve_step("chain:2:%s" % f1, _ABSENT, b"", {f1: alts[f1][0]}, base_obj=e1)
+            if e2 is not None:
+                e3 = evolve_step("chain:3:back", _ABSENT, b"", {f0: cur_of[f0], f1: cur_of[f1]}, base_obj=e2)
+                if e3 is not None:
+                    evolve_step("chain:4:noarg", _ABSENT, b"", {}, base_obj=e3)
+        # --- a source produced by anonymize() (it keeps the original id by design: a stale id when the content changed)
+        try:
+            anon = _construct(cls, kw, base_raw, b"").anonymize()
+        except Exception:
+            anon = None
+        if anon is not None:
+            evolve_step("anonymized:noarg", _ABSENT, b"", {}, base_obj=anon)
+            evolve_step("anonymized:%s" % f0, _ABSENT, b"", {f0: v0}, base_obj=anon)
+            if c.get("full"):
+                evolve_step("anonymized:same:%s" % f0, _ABSENT, b"", {f0: getattr(anon, f0)}, base_obj=anon)
+    elif what == "big":
+        # manifests far beyond one hash block / buffer size: oracle only (the model's executable SHA-1 is too slow)
+        wrong = _flip(right, rng.randrange(160)) if right is not None else _sha(rng)
+        names = [a.name for a in attr.fields(cls) if a.name not in ("id", "raw_manifest")]
+        build_step("noid", _ABSENT, b"", nomodel=True)
+        build_step("right", _ABSENT, right, nomodel=True)
+        for _ in range(4):
+            k = rng.randrange(160)
+            build_step("flip-%d" % k, _ABSENT, _flip(right, k), nomodel=True)
+        build_step("trunc19", _ABSENT, right[:19], nomodel=True)
+        if has_raw:
+            build_step("raw-same-noid", am, b"", nomodel=True)
+            build_step("raw-attrs+lf-noid", am + b"\n", b"", nomodel=True)
+            build_step("raw-prefix-rightid", am[:-1], hashlib.sha1(am[:-1]).digest(), nomodel=True)
+            build_step("raw-prefix-attrsid", am[:-1], right, nomodel=True)
+        fdict = attr.fields_dict(cls)
+        for n in rng.sample(names, min(3, len(names))):
+            evolve_step("field:%s=alt0" % n, _ABSENT, b"", {n: alt_values(kind, n, getattr(probe, n), fdict[n], rng)[0]}, nomodel=True)
+        evolve_step("noarg-on-wrong-id", _ABSENT, wrong, {}, nomodel=True)
     elif what == "shapes":
         # container-valued arguments given in every shape the code accepts TODAY (observed first, with an explicit id so
         # that nothing is hashed): constructor, from_dict, evolve.  Whatever the shape, the object must be the one built
@@ -822,8 +1207,14 @@ def impl(c):
 
 
 # ------------------------------------------------------------------ model side
+def _step_attrs(ires, st):
+    """hex of the manifest of the attributes of the step's (base) object, None when there is none"""
+    return st["attrs"] if "attrs" in st else ires["attrs"]
+
+
 def _line(c, ires, st):
-    a = "-" if ires["attrs"] is None else hx(bytes.fromhex(ires["attrs"]))
+    a = _step_attrs(ires, st)
+    a = "-" if a is None else hx(bytes.fromhex(a))
     head = "%s %s %s %s" % (c["kind"], a, st["rawarg"], hx(bytes.fromhex(st["id"])))
     if "change" in st:
         ch = st["change"]
@@ -835,8 +1226,12 @@ def _live(ires):
     return [st for st in ires.get("steps", []) if "skip" not in st]
 
 
+def _live_model(ires):
+    return [st for st in _live(ires) if not st.get("nomodel")]
+
+
 def requests(c, ires):
-    return [_line(c, ires, st) for st in _live(ires)]
+    return [_line(c, ires, st) for st in _live_model(ires)]
 
 
 def model(c, resp):
@@ -857,7 +1252,7 @@ def _canon_obs(st):
 def compare(c, ires, mres):
     if "error" in ires:
         return None
-    live = _live(ires)
+    live = _live_model(ires)
     ans = mres.get("answers", [])
     if len(ans) != len(live):
         return "driver answered %d of %d requests" % (len(ans), len(live))
@@ -894,6 +1289,8 @@ def oracle(c, ires, mres):
         raw = _arg(st["rawarg"])
         idv = bytes.fromhex(st["id"])
         attrs = attrs0
+        if "attrs" in st:
+            attrs = None if st["attrs"] is None else bytes.fromhex(st["attrs"])
         evolve = "change" in st
         raw_kw = raw is not _ABSENT
         raw = None if raw is _ABSENT else raw
@@ -956,6 +1353,14 @@ def oracle(c, ires, mres):
             want_sw = "swh:1:%s:%s" % (tag, o["id"]) if len(o["id"]) == 40 else "!ValidationError"
             if o["swhid"] != want_sw:
                 return lab + "swhid() is %s, expected %s" % (o["swhid"], want_sw)
+            if kind in SWHID_CLS and o.get("swhid_cls") not in (None, SWHID_CLS[kind]):
+                return lab + "swhid() returns a %s, expected %s" % (o.get("swhid_cls"), SWHID_CLS[kind])
+        if o.get("unstable"):
+            return lab + "the same read made twice on the same object answers differently: " + ", ".join(o["unstable"])
+        if o.get("id_changed"):
+            return lab + "reading compute_hash() / check() / swhid() changed the id attribute to " + o["id_changed"]
+        if o.get("source_changed"):
+            return lab + "evolve() modified the object it was called on: " + ", ".join(o["source_changed"])
         if o.get("differs"):
             return lab + ("the object differs on %s from the one built from the materialised value (the shape in which a "
                           "container argument is given must not matter)" % ", ".join(o["differs"]))
@@ -965,13 +1370,10 @@ def oracle(c, ires, mres):
 def shrink(c):
     if c.get("only") and len(c["only"]) == 1:
         return
-    if c["what"] == "ids":
-        labels = ["noid", "right", "trunc19", "ext21", "one-byte", "random", "zero", "random40"] + ["flip-%d" % k for k in range(160)]
-    else:
-        try:
-            labels = [st["label"] for st in impl(dict(c, only=None)).get("steps", [])]
-        except Exception:
-            labels = []
+    try:
+        labels = [st["label"] for st in impl(dict(c, only=None)).get("steps", [])]
+    except Exception:
+        labels = []
     for l in labels:
         yield dict(c, only=[l])
 
